@@ -123,7 +123,7 @@ def gen_frame_case(r: random.Random, task: Optional[str] = None) -> Dict[str, An
     seen = set()
     for e in ests:
         while e["score"] in seen:
-            e["score"] = round(e["score"] * 0.999 + 1e-4, 6)
+            e["score"] = round(e["score"] - 1e-6, 6)  # strictly decreasing: terminates
         seen.add(e["score"])
     return dict(task=task, cfg=cfg, crit=crit, pf=pf, frame_id=frame_id, ego_pos=ego_pos, ego_yaw=ego_yaw, gts=gts, ests=ests, kind=kind)
 
@@ -242,7 +242,7 @@ def gen_frame_case_2d(r: random.Random) -> Dict[str, Any]:
     seen = set()
     for e in ests:
         while e["score"] in seen:
-            e["score"] = round(e["score"] * 0.999 + 1e-4, 6)
+            e["score"] = round(e["score"] - 1e-6, 6)  # strictly decreasing: terminates
         seen.add(e["score"])
     return dict(task=task, cfg=cfg, crit=crit, pf=pf, frame_id=cams, gts=gts, ests=ests, kind="2d")
 
